@@ -172,10 +172,12 @@ def run_forked(mod, case, timeout=None):
     sig = status & 0x7F
     label = getattr(mod, "case_label", lambda c: "")(case)
     tail = ""
+    report = ""
     if errpath:
         try:
             with open(errpath, errors="replace") as f:
-                tail = f.read()[-2500:]
+                report = f.read()[-30000:]
+                tail = report[-2500:]
         except OSError:
             pass
     import re
@@ -183,6 +185,12 @@ def run_forked(mod, case, timeout=None):
     if hook is not None and re.search(r"AddressSanitizer: (allocation-size-too-big|out-of-memory|requested allocation size|allocator is out of memory)", tail):
         # the sanitizer's operator new aborts where the plain build throws std::bad_alloc: the check decides whether that is acceptable here
         return hook(case, tail)
+    hook = getattr(mod, "sanitizer_benign_report", None)
+    if hook is not None:
+        # the check may classify a sanitizer report as outside its property (returns a result dict) or not (returns None)
+        res = hook(case, report)
+        if res is not None:
+            return res
     m = re.search(r"(SUMMARY: [^\n]*|runtime error: [^\n]*|corrupted[^\n]*|malloc\(\)[^\n]*|free\(\)[^\n]*|double free[^\n]*|terminate called[^\n]*)", tail)
     raise Violation("crash:" + label, "process died (wait status %d, signal %d) %s" % (status, sig, m.group(1) if m else ""),
                     observed=tail, clause="C12-crash")
